@@ -322,6 +322,21 @@ def default_models():
         return I.symbolic_truth(a)
     reg('numpy.all', _np_all)
     reg('numpy.any', _np_any)
+    class Dtype(Model):
+        def __init__(self, t):
+            self.t = t
+
+        def py_getattr(self, I, name):
+            if name == 'shape':
+                return ()
+            if name == 'itemsize':
+                return 8
+            if name == 'type':
+                return self.t
+            if name == 'kind':
+                return 'f'
+            raise Unsupported('dtype.' + name)
+    reg('numpy.dtype', lambda I, t: Dtype(t))
     reg('numpy.size', lambda I, a: I.len_(a) if isinstance(a, (SArr, list, tuple)) else 1)
     reg('numpy.shape', lambda I, a: (I.len_(a),) if isinstance(a, (SArr, list)) else ())
     reg('numpy.ndim', lambda I, a: 1 if isinstance(a, (SArr, list)) else 0)
